@@ -62,6 +62,19 @@ def generate(rng, tier):
     # LCD off: nothing may be requested
     cases.append(('off', ['ppu.w 0x41 0x78', 'ppu.tick 5000', 'ppu.w 0x40 0x11', 'ppu.tick 40000',
                           'ppu.w 0x40 0x91', 'ppu.tick 20000']))
+    # switching the LCD off and on again: nothing is requested by the switch itself whatever source is selected and
+    # whatever the mode was, and after switching on the schedule (incl. LY=LYC on line 0) restarts from scratch
+    npc = 0
+    lines_of_interest = [0, 1, 5, 143, 144, 153]
+    for lyc in (lines_of_interest if tier != 'quick' else [0, 1, 144, rng.choice([5, 143, 153])]):
+        for src in (0x40, 0x08, 0x10, 0x20):
+            for rep in range(1 if tier == 'quick' else 4):
+                offline = rng.choice([lyc, lyc, rng.choice(lines_of_interest)])
+                k = offline * 114 + rng.choice([0, 1, 5, 19, 20, 21, 40, 62, 63, 64, 100, 113]) + rng.choice([0, 17556])
+                lines = ['ppu.w 0x45 %d' % lyc, 'ppu.w 0x41 %d' % src, 'ppu.tick %d' % k, 'ppu.wi 0x40 0x11',
+                         'ppu.tick %d' % rng.choice([0, 1, 50, 3000]), 'ppu.wi 0x40 0x91', 'ppu.tick %d' % (L.FRAME + 400)]
+                cases.append(('pc%d' % npc, lines))
+                npc += 1
     # register writes themselves request nothing, LCD on or off (IF is read straight after each write)
     nwr = 12 if tier == 'quick' else 150
     for i in range(nwr):
@@ -81,7 +94,7 @@ def generate(rng, tier):
             lines.append('ppu.tick %d' % rng.choice([0, 1, 2, 20, 43, 63, 114, rng.randrange(1, 18000)]))
         cases.append(('wr%d' % i, lines))
     info = dict(exhaustive=False,
-                input_distribution=dict(register_write_cases=nwr, single_source_cases=4, lyc_values=len(lycs), schedules=nsched,
+                input_distribution=dict(register_write_cases=nwr, power_cycle_cases=npc, single_source_cases=4, lyc_values=len(lycs), schedules=nsched,
                                         combinations=ncombo,
                                         cycles_total=sum(int(l.split()[1]) for c in cases for l in c[1]
                                                          if l.startswith('ppu.tick'))),
